@@ -475,13 +475,28 @@ func VerifC18_Handlers() {
 		}
 	}
 	st.Indexer.Items = st.Indexer.Items[:len(st.Indexer.Items)-1]
-	shared.OnDelete(objC2)
+	// a deletion the watch missed arrives after a relist as a tombstone
+	// (cache.DeletedFinalStateUnknown): it is an event like any other
+	var deleted interface{} = objC2
+	if verifC18Failed {
+		return
+	}
+	if rt.Bool("delete-arrives-as-tombstone") {
+		rt.Cover("delete-as-tombstone")
+		deleted = cache.DeletedFinalStateUnknown{Key: "ns/c", Obj: objC2}
+	}
+	shared.OnDelete(deleted)
 	expect(2)
 	check("delete")
 	for _, e := range all {
 		if !e.removed && len(e.h.log) > 0 {
 			l := e.h.log[len(e.h.log)-1]
-			verifAssert(l.kind == 2 && l.old == interface{}(objC2), "deliver-delete/object")
+			verifAssert(l.kind == 2, "deliver-delete/object")
+			if tomb, ok := l.old.(cache.DeletedFinalStateUnknown); ok {
+				verifAssert(tomb.Obj == interface{}(objC2) && tomb.Key == "ns/c", "deliver-delete/tombstone-content")
+			} else {
+				verifAssert(l.old == interface{}(objC2), "deliver-delete/object")
+			}
 		}
 	}
 
